@@ -2,7 +2,7 @@
 TLC enumerates every text over the class alphabet up to a bound (MCSrcLoc) and exports the expected
 (line, column) of every boundary in bytes / UTF-16 / runes; harness/srcloc replays them into
 experimental/source.File.Location / InverseLocation."""
-import json, time, collections
+import json, os, time, collections
 import vf
 
 CFG_T = """SPECIFICATION Spec
@@ -15,13 +15,19 @@ CHECK_DEADLOCK FALSE
 """
 
 
+
+def _line(path, n):
+    """the n-th (0-based) JSON line of a case file"""
+    with open(path) as fh:
+        for i, l in enumerate(fh):
+            if i == n:
+                return json.loads(l)
+    return None
+
 def run(pid, tier, replay=None):
     t0 = time.time()
     wd = vf.workdir(pid)
     binary = vf.build_driver("srcloc")
-    if replay:
-        rep = json.load(open(replay))
-        cases = [e["case"] for e in rep["examples"]]
     runs = []
     if tier == "thorough":
         runs.append(("exh", 6, '"a", "T", "N", "R", "2", "3", "4"', None))
@@ -30,6 +36,15 @@ def run(pid, tier, replay=None):
         runs.append(("exh", 5, '"a", "N", "R", "2", "3", "4"', None))
         runs.append(("sim", 30, '"a", "T", "N", "R", "2", "3", "4"', 60))
     verdict = vf.Verdict(pid)
+    if replay:
+        rep = json.load(open(replay))
+        casefile = os.path.join(wd, "replay_cases.jsonl")
+        vf.jsonl_write(casefile, [e["case"]["abstract"] for e in rep["examples"] if "abstract" in e.get("case", {})])
+        rc, out, err = vf.run_driver(binary, [], stdin_path=casefile, timeout=600)
+        bad = [l for l in out.splitlines() if l.strip() and not json.loads(l)["class"].startswith("HARNESS:parser-rejects")]
+        for l in bad:
+            print("REPLAY-MISMATCH", l[:400])
+        return 1 if bad else 0
     states = trans = ncases = nontrivial = 0
     samples = []
     seen = set()
@@ -66,7 +81,7 @@ def run(pid, tier, replay=None):
             raise vf.MachineryError("srcloc driver failed: " + err)
         for line in out.splitlines():
             m = json.loads(line)
-            verdict.disagree(m["class"], {"text": m["text"]}, m["detail"])
+            verdict.disagree(m["class"], {"text": m["text"], "abstract": _line(casefile, m["n"])}, m["detail"])
     rc = verdict.finish()
     vf.write_evidence(pid, tier, "model_checking", {
         "states": states, "transitions": trans, "traces_validated_against_impl": ncases,
